@@ -232,6 +232,11 @@ pub fn check_pos_opt(ctx: &mut Ctx, p: &Pos, b: &Board, mode: u8) {
             if seen.insert(t.clone()) {
                 check_text(ctx, p, b, &legal, &t);
             }
+            // the coordinate spelling, which the SAN reader also takes: of every pseudo-legal
+            // move that is not legal (must be refused) and of the first legal one
+            if !legal.contains(&m) || legal.first() == Some(&m) {
+                check_text(ctx, p, b, &legal, &text::uci(m));
+            }
             // abbreviated form of pawn captures
             if kind(p.b[m.from as usize]) == P && m.from % 8 != m.to % 8 {
                 let t = text::san_short(m);
